@@ -15,7 +15,7 @@ LEVEL_TEXT = ("Fault injection on the four unmodified clients over an in-memory 
               "thorough tier at EVERY loop step of each session shape - and recovery, back-off, single receive path and loop liveness "
               "are checked by monitors evaluated at every loop step. Liveness is bounded in virtual time.")
 TECHNIQUE = "fault injection at enumerated event-loop steps (thorough) / Hypothesis-chosen steps (quick) with recovery predicates on a virtual-clock asyncio harness"
-RULE = ("client type x 1..3 episodes (initial refusals 0..12, fault kind, injection point = loop step k after the link is up or a virtual "
+RULE = ("client type x status callback {plain, slow, slow on CONNECTED, raising} x 1..3 episodes (initial refusals 0..12, fault kind, injection point = loop step k after the link is up or a virtual "
         "time offset, refusals before the gateway accepts again); oracle: DISCONNECTED reported after each fault on an established link, "
         "attempts continue with gaps > 0, non-decreasing, growing below the 10 s cap, bounded by 30 s; CONNECTED within 45 virtual s of "
         "acceptance and a frame fed afterwards is delivered; <= 1 read in flight at every loop step; heartbeat >= 90 %, no reader "
@@ -64,12 +64,14 @@ def scripts(draw, kind):
                     "mid_packet": draw(st.booleans()),
                     "refusals": draw(st.sampled_from([0, 0, 1, 2, 3, 5, 8, 12])),
                     "connect_error": draw(st.booleans())})
-    return {"initial_refusals": draw(st.sampled_from([0, 0, 1, 2, 4, 7, 12])), "episodes": eps}
+    return {"initial_refusals": draw(st.sampled_from([0, 0, 1, 2, 4, 7, 12])), "episodes": eps,
+            "status_mode": draw(st.sampled_from(["plain", "plain", "slow", "slow_connected", "raise"]))}
 
 
 def run_script(kind, script):
     plan = [("refuse",)] * script["initial_refusals"] + [("accept",)]
     s = aio.Session(kind, connect_plan=plan)
+    s.status_mode = script.get("status_mode", "plain")
     s.fault_times = []
     s.accept_times = []
     s.gw.on_link = lambda link: (s.accept_times.append(s.loop.time()), setattr(link, "up_step", s.loop.steps))
@@ -235,7 +237,8 @@ def _enumerate(ctx: Ctx, item):
     kind, fault, steps = item
     for k in steps:
         for mid in (False, True):
-            script = {"initial_refusals": 1, "episodes": [{"fault": fault, "at": ("step", k), "mid_packet": mid, "refusals": 2, "connect_error": False}]}
+            script = {"initial_refusals": 1, "episodes": [{"fault": fault, "at": ("step", k), "mid_packet": mid, "refusals": 2, "connect_error": False}],
+                      "status_mode": ["plain", "slow_connected", "slow"][k % 3]}
             ctx.count()
             ctx.nontrivial_extra += 1
             outcome, s = run_script(kind, script)
